@@ -57,6 +57,7 @@ def death_desc(rec):
         d["kind"] = san["kind"]
         d["first_repo_function"] = san["first_repo_function"] or "?"
         d["alloc_repo_function"] = san["alloc_repo_function"] or ""
+        d["region_bytes"] = san.get("region_bytes", "")
     if "Assertion" in rec.get("stderr", ""):
         m = re.search(r"Assertion `(.+?)' failed", rec["stderr"])
         d["class"] = "assert:" + (m.group(1)[:60] if m else "?")
